@@ -137,6 +137,25 @@ def ob_ngram(kind, L, n, timeout_ms):
 
 
 # ----------------------------------------------------------------------------------------- multiplicity
+def ob_ngram_witness():
+    """reachability twin: with key length 4 and n = 2 the window branch is taken (three inner adds are recorded) and the
+    path condition of the harness is satisfiable"""
+    stats = common.Stats()
+    st = State()
+    key = SBytes([z3.BitVec(f"k{i}", 8) for i in range(4)])
+    disp, inner, args, sids, ptr_idx, val_idx = ngram_setup("log8", st, key, mk_int(types.uint64, 2))
+    calls = []
+
+    def rec(ex, state, a, sig):
+        calls.append(a)
+        return [(state, Val(types.uint64, z3.BitVec(f"p{len(calls)}", 64)))]
+    ex = Executor(stubs={inner: rec}, loop_bound=8)
+    outs = ex.call_dispatcher(disp, st, args)
+    r, _ = common.z3check(list(outs[0][0].pc) + [key.cells[0] != key.cells[1]], 30000, stats, label="witness: ngram window branch")
+    ok = r == "sat" and len(calls) == 3
+    return {"status": "witness" if ok else "nowitness", "stats": stats.as_dict(), "note": None if ok else f"{r}, {len(calls)} calls"}
+
+
 def ob_mult_linear(width, depth, timeout_ms):
     stats = common.Stats()
     book = KeyBook()
@@ -442,6 +461,7 @@ def main():
     for bits in (8, 16):
         for (w, d) in ((1, 1), (2, 2), (3, 2)):
             obs.append(common.Ob(f"multiplicity: log{bits} add(k,2) == add(k,1);add(k,1) with _log_counter abstracted, {d}x{w}", ob_mult_log, (bits, w, d, tmo), hard_s=tmo / 1000 + 120, bounds={"bits": bits, "width": w, "depth": d}))
+    obs.append(common.Ob("witness: ngram window branch reachable", ob_ngram_witness, (), kind="witness", hard_s=200))
     nk = len(obs)
     wobs, wmeta = wrun.obligations("c12", tier)
     obs += wobs
